@@ -487,7 +487,11 @@ func (c *V2) Do(op Op) (out Outcome) {
 		}
 		return o
 	case OpTransact:
-		_, err := c.C.TransactWriteItems(ctx, &v2ddb.TransactWriteItemsInput{})
+		tin := &v2ddb.TransactWriteItemsInput{ClientRequestToken: strp(op.Token)}
+		if op.Table != "" {
+			tin.TransactItems = []v2types.TransactWriteItem{{Put: &v2types.Put{TableName: aws.String(op.Table), Item: ItemToV2(op.Item)}}}
+		}
+		_, err := c.C.TransactWriteItems(ctx, tin)
 		return fin(err)
 	case OpCreateTable:
 		res, err := c.C.CreateTable(ctx, v2CreateInput(op.Spec))
